@@ -6,8 +6,11 @@
    the prototype schemas; IdColumnMonotone = delta-encoded id builders fed by counters that only grow, whose range is
    guarded by the id-width pre-check (C08_refuses_overflow); GuardedByIdWidthPrecheck = accumulator capacity, unreachable
    after the pre-check; RetryBudget = the retry loop (C08_retry_bound for dictionary events; field discovery needs at most
-   3 passes on the prototype schemas); LimitErrorRecoveredByArrow = consumer allocator (C14); NotOnPublicPath /
-   DebugOrToolingOnly = not reachable through the public producer/consumer options; LibraryErrorOnWellTypedBuilder = an
+   3 passes on the prototype schemas); LimitErrorRecoveredByArrow = consumer allocator (C14); NotOnPublicPath = no caller on
+   the producer/consumer paths (RequireNoError lost its last caller with fix 1f483265; the record-dump panics, once classed
+   "debug only" although WithDumpRecordRows / WithSchemaStats are public options, were genuine C08 defects, removed by
+   fixes 81414d9c and 1f483265, and are exercised on every run by the diagnostic-option histories); DebugOrToolingOnly = code
+   of the benchmark / tooling binaries, not linked into a producer or consumer; LibraryErrorOnWellTypedBuilder = an
    arrow-go builder returned an error although it was fed a value of its own type. *)
 From Coq Require Import String List Bool.
 Import ListNotations.
@@ -17,13 +20,6 @@ Inductive pclass := TypeInvariant | IdColumnMonotone | GuardedByIdWidthPrecheck 
   | NotOnPublicPath | DebugOrToolingOnly | ConfigInvariant | LibraryErrorOnWellTypedBuilder.
 
 Definition panic_baseline : list (string * string * string * pclass) := [
- ("pkg/arrow/record.go", "arrayColValues", "fmt.Sprintf('unsupported array type %T', arr)", DebugOrToolingOnly);
- ("pkg/arrow/record.go", "arrayColValues", "fmt.Sprintf('unsupported dictionary type %T', arr)", DebugOrToolingOnly);
- ("pkg/arrow/record.go", "sparseUnionValue", "'cbor not supported'", DebugOrToolingOnly);
- ("pkg/arrow/record.go", "sparseUnionValue", "err", DebugOrToolingOnly);
- ("pkg/arrow/record.go", "sparseUnionValue", "err", DebugOrToolingOnly);
- ("pkg/arrow/record.go", "sparseUnionValue", "fmt.Sprintf('unsupported array type %T', arr)", DebugOrToolingOnly);
- ("pkg/arrow/record.go", "sparseUnionValue", "fmt.Sprintf('unsupported type code %d', tcode)", DebugOrToolingOnly);
  ("pkg/arrow/schema.go", "DataTypeToID", "'unsupported data type ' + dt.String()", TypeInvariant);
  ("pkg/arrow/schema.go", "ShowDataType", "'unsupported data type ' + dt.String()", TypeInvariant);
  ("pkg/otel/arrow_record/producer.go", "NewProducerWithOptions", "err", LibraryErrorOnWellTypedBuilder);
@@ -32,7 +28,7 @@ Definition panic_baseline : list (string * string * string * pclass) := [
  ("pkg/otel/arrow_record/producer.go", "recordBuilder", "'Too many consecutive schema updates. This shouldn't happen.", RetryBudget);
  ("pkg/otel/common/arrow/allocator.go", "*LimitedAllocator.Allocate", "err", LimitErrorRecoveredByArrow);
  ("pkg/otel/common/arrow/allocator.go", "*LimitedAllocator.Reallocate", "err", LimitErrorRecoveredByArrow);
- ("pkg/otel/common/arrow/analyzer.go", "RequireNoError", "err", DebugOrToolingOnly);
+ ("pkg/otel/common/arrow/analyzer.go", "RequireNoError", "err", NotOnPublicPath);
  ("pkg/otel/common/arrow/attributes.go", "*Attributes16Accumulator.Append", "'The maximum number of group of attributes has been reached ", GuardedByIdWidthPrecheck);
  ("pkg/otel/common/arrow/attributes.go", "*Attributes16Accumulator.AppendWithID", "'The maximum number of group of attributes has been reached ", GuardedByIdWidthPrecheck);
  ("pkg/otel/common/arrow/attributes.go", "*Attributes32Accumulator.Append", "'The maximum number of group of attributes has been reached ", GuardedByIdWidthPrecheck);
